@@ -26,7 +26,10 @@ Proof. intros Hf Hg w. eapply ext_trans; [apply Hg|apply Hf]. Qed.
 Lemma E_fold {Y} (f : world -> Y -> world) l : (forall x, E (fun w => f w x)) -> E (fun w => fold_left f l w).
 Proof. intros H. induction l as [|x l IH]; intros w; cbn [fold_left]; [apply ext_refl|]. eapply ext_trans; [apply (H x w)|apply IH]. Qed.
 Lemma same_ext w w' : same w w' -> ext w w'.
-Proof. intros Hs. constructor; [apply (sm_now _ _ Hs)|rewrite (sm_tmr _ _ Hs); auto|rewrite (sm_can _ _ Hs); auto|apply (sm_ready _ _ Hs)]. Qed.
+Proof.
+  intros Hs. constructor; [apply (sm_now _ _ Hs)|rewrite (sm_tmr _ _ Hs); auto|rewrite (sm_can _ _ Hs); auto|].
+  destruct (sm_ready _ _ Hs) as (l & A & B). exists l. split; [exact A|]. eapply Forall_impl; [|exact B]. intros r Hr. apply Hr.
+Qed.
 Lemma E_neutral f : neutral f -> E f.
 Proof. intros H w. apply same_ext, H. Qed.
 
@@ -47,6 +50,7 @@ Proof. intros w. destruct (put_store_frame st s w) as (F1 & F2 & F3 & _). constr
 Lemma E_put_task t tk : E (put_task t tk). Proof. intros w. constructor; auto. noready. Qed.
 Lemma E_put_inst i x : E (put_inst i x). Proof. intros w. constructor; auto. noready. Qed.
 Lemma E_set_collectors c : E (set_collectors c). Proof. intros w. constructor; auto. noready. Qed.
+Lemma E_ghost g : E (ghost g). Proof. intros w. constructor; auto. noready. Qed.
 Lemma E_set_tasks c : E (set_tasks c). Proof. intros w. constructor; auto. noready. Qed.
 Lemma E_set_next_id c : E (set_next_id c). Proof. intros w. constructor; auto. noready. Qed.
 Lemma E_call_soon h : E (call_soon h). Proof. intros w. constructor; [reflexivity|intros t Ht; left; exact Ht|intros tid H; exact H|exists [(None, h)]; split; [reflexivity|constructor; [reflexivity|constructor]]]. Qed.
@@ -114,8 +118,8 @@ Lemma E_sleep_done t : E (sleep_done t).
 Proof. intros w. unfold sleep_done. destruct (get_task t w) as [tk|]; [|apply ext_refl]. destruct (tk_done tk); [apply ext_refl|]. eapply ext_trans; [apply E_put_task|apply E_call_soon]. Qed.
 Lemma E_queue_send e d : E (queue_send e d).
 Proof.
-  intros w0. unfold queue_send. apply (ext_trans _ (ghost (GQueue e d) w0)); [apply E_neutral, n_ghost|]. generalize (ghost (GQueue e d) w0). clear w0.
-  intros w. unfold queue_core. destruct (t_collect (cfg w) =? 0); [eapply ext_trans; [apply E_neutral, n_ghost|apply E_neutral, n_send_sd]|].
+  intros w0. unfold queue_send. apply (ext_trans _ (ghost (GQueue e d) w0)); [apply E_ghost|]. generalize (ghost (GQueue e d) w0). clear w0.
+  intros w. unfold queue_core. destruct (t_collect (cfg w) =? 0); [eapply ext_trans; [apply E_ghost|apply E_neutral, n_send_sd]|].
   match goal with |- ext w (match ?o with Some _ => _ | None => _ end) => destruct o as [[c co]|] end; [apply E_set_collectors|].
   destruct (call_later (t_collect (cfg w)) (HCollector (next_id w)) w) as [tid w1] eqn:Ec.
   assert (w1 = snd (call_later (t_collect (cfg w)) (HCollector (next_id w)) w)) as -> by (rewrite Ec; reflexivity).
@@ -124,7 +128,7 @@ Qed.
 Lemma E_collector_timeout c : E (collector_timeout c).
 Proof.
   intros w. unfold collector_timeout. destruct (aget N.eqb c (collectors w)); [|apply ext_refl].
-  eapply ext_trans; [|apply E_neutral, n_send_sd]. eapply ext_trans; [apply E_neutral, n_ghost|apply E_set_collectors].
+  eapply ext_trans; [|apply E_neutral, n_send_sd]. eapply ext_trans; [apply E_ghost|apply E_set_collectors].
 Qed.
 
 (* ---- composite functions *)
@@ -299,9 +303,10 @@ Lemma E_message_received m a mc : E (message_received m a mc).
 Proof.
   intros w. unfold message_received. destruct (negb (is_sd_message m)); [apply ext_refl|].
   destruct (parse_sd (m_payload m)) as [[h r]|]; [|apply ext_refl].
-  destruct (check_received (sess w) a mc (sd_reboot h) (m_sess m)) as [rb s'].
+  pose proof (n_set_sess_rx w a mc (sd_reboot h) (m_sess m)) as Hrx.
+  destruct (check_received (sess w) a mc (sd_reboot h) (m_sess m)) as [rb s']. cbn [snd] in Hrx.
   assert (H2 : ext w (if rb then reboot_detected a (set_sess s' w) else set_sess s' w)).
-  { destruct rb; [eapply ext_trans; [apply E_neutral, n_set_sess|apply E_reboot_detected]|apply E_neutral, n_set_sess]. }
+  { destruct rb; [eapply ext_trans; [apply same_ext; exact Hrx|apply E_reboot_detected]|apply same_ext; exact Hrx]. }
   destruct (resolve_sd h); [eapply ext_trans; [exact H2|apply E_sd_message_received]|exact H2].
 Qed.
 Lemma E_datagram_received data a mc : E (datagram_received data a mc).
